@@ -44,6 +44,51 @@ def jobs(tier):
                     specs={FN_NEXT: nxt}, solver='cadical', timeout=600, objbits=10, split=8,
                     must_have=['postcondition', 'loop_invariant_step', 'loop_decreases', 'pointer_dereference'],
                     clause='tag-word matcher reads only [content, content+length) and inside the word tables, always advances, terminates, reports a match id within the table'))
+    # ---- attribute scanners of the tag parser -------------------------------------------------------------------------------------
+    PIF = TC + '_parseIfCase'
+    PLA = TC + '_parseLoopAttributes'
+    CLV = TC + '_checkLoopVariable'
+    ISEQ_ = 'StringUtils_IsEqual__char'
+    iseq_callee = dict(requires=['length == 0 || (__CPROVER_r_ok(left, length) && __CPROVER_r_ok(right, length))'], assigns=[],
+                       ensures=['__CPROVER_return_value == 0 || __CPROVER_return_value == 1'])
+    inv = ['*offset <= end_offset', '*offset >= __CPROVER_loop_entry(*offset)']
+    LE = '((unsigned long long)end_offset + 1)'
+    pif = dict(buffers=[('content', 'end_offset')], refs=['offset', 'case_offset', 'case_end_offset'], requires=['*offset <= end_offset', 'end_offset < 0xFFFFFFF0u'],
+               ensures=['*offset <= end_offset + 1', '*offset >= __CPROVER_old(*offset)',
+                        '(*case_end_offset != __CPROVER_old(*case_end_offset) || *case_offset != __CPROVER_old(*case_offset)) ==> (*case_offset <= *case_end_offset && *case_end_offset <= end_offset)'],
+               assigns=['*offset', '*case_offset', '*case_end_offset'],
+               loops={0: dict(invariant=inv, decreases='end_offset - *offset', assigns='*offset'),
+                      1: dict(invariant=inv, decreases='end_offset - *offset', assigns='*offset'),
+                      2: dict(invariant=['*offset <= end_offset', '*offset >= __CPROVER_loop_entry(*offset)'], decreases='%s - *offset' % LE, assigns='*offset'),
+                      3: dict(invariant=inv + ['*case_offset <= *offset'], decreases='end_offset - *offset', assigns='*offset'),
+                      4: dict(invariant=inv + ['*case_end_offset <= *offset'], decreases='end_offset - *offset', assigns='*offset')})
+    out.append(dict(name='parseIfCase.memory-safety', unit=UNIT, fn=PIF, roots=[QTC + '::parseIfCase'], specs={PIF: pif, ISEQ_: iseq_callee}, replace=[ISEQ_],
+                    solver='cadical', timeout=600, objbits=10, must_have=['postcondition', 'loop_invariant_step', 'loop_decreases', 'pointer_dereference'],
+                    clause='the case="..." attribute scanner reads only [content, content+end_offset), terminates, and reports a case range inside the tag'))
+    clv = dict(buffers=[('content', 'g_len')], requires=[ '__CPROVER_is_fresh(tag, sizeof(*tag))', '__CPROVER_is_fresh(loop_tag, sizeof(*loop_tag))', 'loop_tag->Parent == 0',
+                         'tag->Offset <= g_len && (unsigned long long)tag->Offset + loop_tag->ValueLength <= g_len',
+                         '(unsigned long long)loop_tag->Offset + loop_tag->ValueOffset + loop_tag->ValueLength <= g_len'],
+               ensures=['tag->IDLength == __CPROVER_old(tag->IDLength) || tag->IDLength == loop_tag->ValueLength'],
+               assigns=['tag->IDLength', 'tag->Level'],
+               loops={0: dict(invariant=['loop_tag == 0 || loop_tag == __CPROVER_loop_entry(loop_tag)', 'tag->IDLength == __CPROVER_loop_entry(tag->IDLength)'], assigns='loop_tag, tag->IDLength, tag->Level')}, loops_partial=True)
+    out.append(dict(name='checkLoopVariable.memory-safety', unit=UNIT, fn=CLV, roots=[QTC + '::checkLoopVariable'], specs={CLV: clv, ISEQ_: iseq_callee}, replace=[ISEQ_],
+                    ghosts=[('unsigned int', 'g_len')], solver='cadical', timeout=300, objbits=10, must_have=['postcondition', 'precondition'],
+                    clause='loop-variable matching compares only ranges that lie inside the template buffer (one enclosing loop)'))
+    pla = dict(buffers=[('content', 'g_len')], requires=['__CPROVER_is_fresh(tag, sizeof(*tag))', 'end_offset < g_len', 'end_offset < 0xFFFFFFF0u',
+                                                         '(unsigned long long)tag->Offset + 5 <= end_offset'],
+               ensures=['tag->Set.Offset == __CPROVER_old(tag->Set.Offset) || ((unsigned long long)tag->Set.Offset <= end_offset)'],
+               assigns=['__CPROVER_object_whole(tag)'],
+               loops={0: dict(invariant=['offset <= end_offset', 'att_type <= 4'], decreases='%s - offset' % LE, assigns='offset, att_type, __CPROVER_object_whole(tag)'),
+                      1: dict(invariant=['offset <= end_offset', 'offset >= __CPROVER_loop_entry(offset)'], decreases='end_offset - offset', assigns='offset'),
+                      2: dict(invariant=['offset <= end_offset', 'offset >= __CPROVER_loop_entry(offset)'], decreases='end_offset - offset', assigns='offset'),
+                      3: dict(invariant=['offset <= end_offset', 'offset >= __CPROVER_loop_entry(offset)'], decreases='%s - offset' % LE, assigns='offset'),
+                      4: dict(invariant=['offset < end_offset', 'offset >= __CPROVER_loop_entry(offset)'], decreases='%s - offset' % LE, assigns='offset')})
+    clv_callee = dict(requires=['__CPROVER_w_ok(tag, sizeof(*tag))'], assigns=['tag->IDLength', 'tag->Level'], ensures=[])
+    unfinished = []   # parseLoopAttributes: obligation groups exceed 1500 s (five nested loop contracts, whole-tag havoc); kept for the record, not run
+    unfinished.append(dict(name='parseLoopAttributes.memory-safety', unit=UNIT, fn=PLA, roots=[QTC + '::parseLoopAttributes'], specs={PLA: pla, ISEQ_: iseq_callee, CLV: clv_callee},
+                    replace=[ISEQ_, CLV], ghosts=[('unsigned int', 'g_len')], solver='cadical', timeout=1500, objbits=10, split=16, split_par=8,
+                    must_have=['postcondition', 'loop_invariant_step', 'loop_decreases', 'pointer_dereference'],
+                    clause='the <loop ...> attribute scanner reads only inside the template buffer (closing > inside it), terminates, and records attribute offsets inside the tag'))
     for j in arith_jobs():
         if j['name'] in ('evaluateExpression.Division', 'evaluateExpression.Remainder'):
             j = dict(j)
